@@ -124,7 +124,12 @@ const UNITS: [u16; 16] = [0x0000, 0x000A, 0x0041, 0x0A00, 0x4E0A, 0xD7FF, 0xD800
 /// LineDecoder over one buffer vs the model (entry c08 with an empty schedule)
 fn lines_case(out: &mut Out, data: &[u8], desc: String) -> Result<std::io::Result<Vec<String>>, String> {
     let res = lines_via(std::io::Cursor::new(data));
-    out.case(case_c08(data, &[]), dump_lines(&res), desc, data.len() >= 3 && data.contains(&b'\n'));
+    let nontrivial = data.len() >= 3 && data.contains(&b'\n');
+    if data.len() <= 4096 {
+        // the schedule-free reference decode_stream (what the theorems call "the lines of the bytes")
+        out.case(bytes_case("c08p", &[], data), dump_lines(&res), format!("{desc} [reference decode_stream]"), nontrivial);
+    }
+    out.case(case_c08(data, &[]), dump_lines(&res), desc, nontrivial);
     res
 }
 
